@@ -41,9 +41,11 @@ type abortT struct{}
 type Point struct {
 	Enabled      []string // canonical order: running thread first (if still enabled), then ascending names
 	Chosen       int
+	Running      string
 	RunningStill bool // the running thread was still enabled (choosing another one is a preemption)
 	Label        string
 	Key          uint64 // state key before the choice (0 if keys are off)
+	Frozen       bool   // recorded while exploration was switched off: no alternatives are explored here
 }
 
 type Failure struct {
@@ -69,6 +71,7 @@ type Sched struct {
 	// Observations written by harness code (only from registered threads).
 	Obs      []string
 	Switches int
+	frozen   bool
 	onPoint  func(s *Sched, p *Point) bool // return false to cut the execution here (state already explored)
 	Cut      bool
 }
@@ -199,12 +202,21 @@ func (s *Sched) point(t *Thread, label string) {
 		return
 	}
 	next := en[0]
+	if len(en) == 1 && s.Keys && !s.frozen && s.onPoint != nil && len(s.Points) >= len(s.prefix) {
+		// no choice here, but the state may already have been explored from another prefix
+		p := Point{Running: t.Name, RunningStill: still, Label: label, Key: s.stateKey()}
+		if !s.onPoint(s, &p) {
+			s.Cut = true
+			s.abortAll(t)
+			panic(abortT{})
+		}
+	}
 	if len(en) > 1 {
-		p := Point{RunningStill: still, Label: label}
+		p := Point{Running: t.Name, RunningStill: still, Label: label, Frozen: s.frozen}
 		for _, x := range en {
 			p.Enabled = append(p.Enabled, x.Name)
 		}
-		if s.Keys {
+		if s.Keys && !s.frozen {
 			p.Key = s.stateKey()
 		}
 		i := len(s.Points)
@@ -215,7 +227,7 @@ func (s *Sched) point(t *Thread, label string) {
 				s.abortAll(t)
 				panic(abortT{})
 			}
-		} else if s.onPoint != nil && !s.onPoint(s, &p) {
+		} else if s.onPoint != nil && !s.frozen && !s.onPoint(s, &p) {
 			s.Cut = true
 			s.abortAll(t)
 			panic(abortT{})
@@ -366,6 +378,14 @@ func Run(cfg Config, setup func(s *Sched), body func()) *Sched {
 // IsAbort reports whether a recovered value is the scheduler's unwinding marker
 // (shims that recover handler panics must re-panic it).
 func IsAbort(r any) bool { _, ok := r.(abortT); return ok }
+
+// SetExplore switches the exploration of alternatives on or off for the scheduling
+// points that follow (harnesses freeze start-up and tear-down, which other checks explore).
+func SetExplore(on bool) {
+	if t := Current(); t != nil {
+		t.s.frozen = !on
+	}
+}
 
 // Observe appends to the execution's observation log (harness code only).
 func Observe(format string, a ...any) {
